@@ -157,6 +157,13 @@ fn check_request(ctx: &mut Ctx, out: &mut Outcome, src: &hpo::Ontology, pf: &cra
         let got = observe(o);
         out.mixin(digest(&got));
         let retained: BTreeSet<u32> = got.terms.iter().map(|t| t.id).collect();
+        if retained.len() > 30 {
+            ctx.counters.add("probe.retained_more_than_30_terms", 1);
+        }
+        if retained.iter().any(|t| mod_roots.contains(t)) {
+            ctx.counters.add("probe.modifier_root_retained", 1);
+        }
+        ctx.counters.add("probe.records_kept", (got.genes.len() + got.omim.len() + got.orpha.len()) as u64);
         // root and all leaves retained
         if !retained.contains(&v.root) {
             out.violate(P, "missing-root", format!("{what}: root not in the result"));
